@@ -325,6 +325,25 @@ def io_order(io_path, wd, stats):
     return out
 
 
+def io_grammar(io_path, wd, stats):
+    """Drift detector: the recorded call sequences vs the action order of spec/WalImpl.tla (spec/WalIoGrammar.tla).
+    Drift is reported in the evidence (impl_drift), never as a violation."""
+    cfg = cfg_text(constants={"TraceFile": "io.ndjson"}, post="Accepted")
+    r = tlc("WalIoGrammar", cfg, files={"io.ndjson": io_path}, workers=1, timeout=900, heap="8g")
+    if r.error or r.violated:
+        stats.setdefault("impl_drift_kinds", []).append("grammar check failed: %s %s" % (r.error, r.violated))
+        return
+    pl = tlc_payloads(r, "DRIFT")
+    if len(pl) != 1:
+        return
+    stats["io_calls_grammar"] = stats.get("io_calls_grammar", 0) + pl[0]["nobs"]
+    stats["impl_drift"] = stats.get("impl_drift", 0) + len(pl[0]["v"])
+    kinds = set(stats.get("impl_drift_kinds", []))
+    for v in pl[0]["v"]:
+        kinds.add("%s@%s:%s" % (v["op"], v["state"], v["why"]))
+    stats["impl_drift_kinds"] = sorted(kinds)[:20]
+
+
 class Engine:
     """One check run: collects stats, violations per property, evidence samples."""
 
@@ -351,6 +370,7 @@ class Engine:
             t0 = time.time()
             obs, io, st = run_jobs(jobs, self.wd, "%s%d" % (tag, lvl), need_io=True)
             t1 = time.time()
+            io_grammar(io, self.wd, self.stats)
             if lvl == 0:
                 for v in io_order(io, self.wd, self.stats):
                     job = self.jobs_by_id.get(v["path"].split("/")[0])
